@@ -259,11 +259,11 @@ def run(ctx):
     maxn = 6 if ctx.quick else 8
     check_invalid_vectors(ctx)
     for i in range(ctx.n(16000, 300000)):
-        if ctx.expired():
+        if ctx.expired(0.45):
             break
         ctx.guard("check_score", check_score, ctx, gen_score_case(ctx.rnd, maxn))
     for i in range(ctx.n(800, 12000)):
-        if ctx.expired():
+        if ctx.expired(0.55):
             break
         rnd = ctx.rnd
         sizes = rnd.sample([2, 3, 4, 5, 6], 3)
